@@ -30,6 +30,11 @@ pub struct Inc {
     pub env: Vec<(String, String)>,
     #[serde(default)]
     pub stack_mib: u8,
+    /// transforms executed on the same thread BEFORE the one under test (history):
+    /// bit 0 = same document under a perturbed configuration, bit 1 = another document
+    /// under the same configuration, bit 2 = a failing document
+    #[serde(default)]
+    pub interfere: u8,
 }
 
 #[derive(Serialize, Deserialize, Clone, Debug, PartialEq)]
@@ -38,6 +43,23 @@ pub struct Scn {
     pub doc: Doc,
     pub cfg: Cfg,
     pub incs: Vec<Inc>,
+    /// the "other document" used by interfering transforms
+    #[serde(default)]
+    pub other_doc: Option<Doc>,
+}
+
+fn perturbed(c: &Cfg) -> Cfg {
+    let mut p = c.clone();
+    p.font_size += 3.0;
+    p.font_family = if c.font_family == "serif" { "monospace".into() } else { "serif".into() };
+    p.theme = if c.theme == "dark" { "bold".into() } else { "dark".into() };
+    p.seed = c.seed.wrapping_add(1);
+    p.border = c.border.wrapping_add(2);
+    p.scale = c.scale * 2.0;
+    p.background = if c.background == "white" { "#123".into() } else { "white".into() };
+    p.add_metadata = !c.add_metadata;
+    p.debug = !c.debug;
+    p
 }
 
 const T0: u64 = 1_700_000_000_000_000_000;
@@ -158,6 +180,7 @@ impl Engine for C06 {
                 repeats: if j == 0 { 2 } else { k.below(2) as u8 },
                 env: vec![],
                 stack_mib: if j % 2 == 0 { 8 } else { 2 },
+                interfere: if j >= 2 { (k.below(8)) as u8 } else { 0 },
             });
         }
         // real processes: every 4th run in quick, every run in thorough
@@ -194,9 +217,18 @@ impl Engine for C06 {
                 repeats: 0,
                 env: envs,
                 stack_mib: 0,
+                interfere: 0,
             });
         }
-        serde_json::to_value(Scn { label, doc, cfg, incs }).unwrap()
+        let other_doc = Some(Doc::from_str(&docgen::feature_doc(&mut w, true, true)));
+        serde_json::to_value(Scn {
+            label,
+            doc,
+            cfg,
+            incs,
+            other_doc,
+        })
+        .unwrap()
     }
 
     fn execute(&self, scenario: &Value, env: &WorkerEnv) -> RunResult {
@@ -223,7 +255,25 @@ impl Engine for C06 {
                     let cfg = scn.cfg.clone();
                     let reps = inc.repeats as usize + 1;
                     let stack = if inc.stack_mib == 0 { STACK_MAIN } else { (inc.stack_mib as usize) << 20 };
+                    let interfere = inc.interfere;
+                    let other = scn.other_doc.clone();
+                    if interfere != 0 {
+                        res.stats.probe("history_before_transform_on_same_thread");
+                    }
                     let outs = on_thread(stack, move || {
+                        // history: other transforms on this thread first (results ignored)
+                        if interfere & 1 != 0 {
+                            let _ = fe_stream_plain(&doc, &perturbed(&cfg));
+                        }
+                        if interfere & 2 != 0 {
+                            if let Some(o) = &other {
+                                let _ = fe_stream_plain(&o.0, &cfg);
+                                let _ = fe_stream_plain(&o.0, &perturbed(&cfg));
+                            }
+                        }
+                        if interfere & 4 != 0 {
+                            let _ = fe_stream_plain(b"<svg><rect xy=\"#nope|h\" wh=\"1\"/><g fill=\"red\"><rect xy=\"#nope2|h\"/></g></svg>", &cfg);
+                        }
                         let mut v = Vec::new();
                         for r in 0..reps {
                             // alternate the two library entry points
@@ -397,6 +447,17 @@ impl Engine for C06 {
                 let mut s = scn.clone();
                 s.incs.remove(i);
                 out.push(s);
+            }
+        }
+        for i in 0..scn.incs.len() {
+            if scn.incs[i].interfere != 0 {
+                for bit in [1u8, 2, 4] {
+                    if scn.incs[i].interfere & bit != 0 {
+                        let mut s = scn.clone();
+                        s.incs[i].interfere &= !bit;
+                        out.push(s);
+                    }
+                }
             }
         }
         for i in 0..scn.incs.len() {
